@@ -423,29 +423,47 @@ func verifSpecCL(lowered string) primitive.ConsistencyLevel {
 //@   ensures r.qp.$remaining >= 0
 //@   modifies r.done, r.host, r.$replies, $sends, r.qp.$remaining
 
-// checkIdempotent ("lock before using"): determines the classification once and never flips it.
-//@ ghostvar $idemQueryText string
-//@ func proxy.request.checkIdempotent [C04]
-//@   requires r != nil && holds(r.mu) && r.client != nil && r.client.proxy != nil
-//@   ensures result == (r.state == isIdempotent) && r.state != notDetermined
-//@   ensures sticky: old(r.state) != notDetermined ==> r.state == old(r.state)
-//@   ensures r.done == old(r.done) && r.retryCount == old(r.retryCount) && r.host == old(r.host)
-//@   modifies r.state
-
-// The classification functions it consults.
+// The classification functions. Idempotency of a statement text is a function of the text
+// ("idem.text", whose soundness is C06); of a prepared id, a function of the id during one
+// classification ("idem.id": the prepared-metadata table is treated as stable while one request is
+// being classified).
 //@ func parser.IsQueryIdempotent [C04, C06]
 //@   trusted
-//@   ensures err != nil ==> !idempotent
+//@   ensures idempotent == (ufBool("idem.text", query) && err == nil)
 //@   modifies nothing
 
 //@ func proxy.Proxy.isIdempotent [C04]
+//@   trusted
 //@   requires p != nil
+//@   ensures result == ufBool("idem.id", id)
 //@   modifies nothing
+
+// isBatchIdempotent: a batch is idempotent only if every child is (string children by their text,
+// prepared children by their id; anything else is not idempotent).
+//@ loop proxy.request.isBatchIdempotent #1
+//@   invariant forall(j, 0, rangeindex + 1, (typeis(batch.Queries[j].QueryOrId, string) && ufBool("idem.text", as(batch.Queries[j].QueryOrId, string))) || (typeis(batch.Queries[j].QueryOrId, []byte) && ufBool("idem.id", as(batch.Queries[j].QueryOrId, []byte))))
 
 //@ func proxy.request.isBatchIdempotent [C04]
 //@   requires r != nil && r.client != nil && r.client.proxy != nil
+//@   ensures all-children: idempotent ==> forall(j, 0, len(batch.Queries), (typeis(batch.Queries[j].QueryOrId, string) && ufBool("idem.text", as(batch.Queries[j].QueryOrId, string))) || (typeis(batch.Queries[j].QueryOrId, []byte) && ufBool("idem.id", as(batch.Queries[j].QueryOrId, []byte))))
 //@   ensures err != nil ==> !idempotent
 //@   modifies nothing
+
+// checkIdempotent ("lock before using"): determines the classification once and never flips it; an
+// undetermined request becomes idempotent exactly when the classifier it consulted said so without error.
+//@ ghostvar $ciConsulted bool
+//@ ghostvar $ciResult bool
+//@ func proxy.request.checkIdempotent [C04]
+//@   requires r != nil && holds(r.mu) && r.client != nil && r.client.proxy != nil && !$ciConsulted
+//@   after parser.IsQueryIdempotent#1 set $ciConsulted = true; $ciResult = (result0 && result1 == nil)
+//@   after proxy.Proxy.isIdempotent#1 set $ciConsulted = true; $ciResult = result
+//@   after proxy.request.isBatchIdempotent#1 set $ciConsulted = true; $ciResult = (result0 && result1 == nil)
+//@   ensures result == (r.state == isIdempotent) && r.state != notDetermined
+//@   ensures sticky: old(r.state) != notDetermined ==> r.state == old(r.state) && !$ciConsulted
+//@   ensures classified: old(r.state) == notDetermined ==> (r.state == isIdempotent) == ($ciConsulted && $ciResult)
+//@   ensures consulted-by-kind: old(r.state) == notDetermined && (typeis(r.msg, *codecs.PartialQuery) || typeis(r.msg, *codecs.PartialExecute) || typeis(r.msg, *codecs.PartialBatch)) ==> $ciConsulted
+//@   ensures r.done == old(r.done) && r.retryCount == old(r.retryCount) && r.host == old(r.host)
+//@   modifies r.state, $ciConsulted, $ciResult
 
 // Execute / OnClose / OnResult: the public operations of the monitor.
 // (Execute's contract as seen from client.execute is stated above.)
@@ -453,10 +471,10 @@ func verifSpecCL(lowered string) primitive.ConsistencyLevel {
 // OnClose (C04): the backend connection died with the request in flight. A request that is not
 // positively idempotent is never sent again; it is answered with an error.
 //@ func proxy.request.OnClose [C01, C04, C05]
-//@   requires r != nil && r.client != nil && r.client.conn != nil && r.client.proxy != nil && r.session != nil && r.qp != nil && r.qp.$remaining >= 0
+//@   requires r != nil && r.client != nil && r.client.conn != nil && r.client.proxy != nil && r.session != nil && r.qp != nil && r.qp.$remaining >= 0 && !$ciConsulted
 //@   ensures not-retried: r.state != isIdempotent ==> $sends == old($sends)
 //@   ensures at-most-one-send: $sends <= old($sends) + 1
-//@   modifies r.state, r.done, r.host, r.$replies, $sends, r.qp.$remaining
+//@   modifies r.state, r.done, r.host, r.$replies, $sends, r.qp.$remaining, $ciConsulted, $ciResult
 
 // handleErrorResult ("lock before using"): applies the retry policy to an ERROR response.
 //   $hrErr / $hrMsg    the decoded error message;  $hrConsulted / $hrDecision  the policy's answer
@@ -468,7 +486,7 @@ func verifSpecCL(lowered string) primitive.ConsistencyLevel {
 //@ ghostvar $hrRetryCalled bool
 //@ ghostvar $hrNext bool
 //@ func proxy.request.handleErrorResult [C04, C05]
-//@   requires !$hrConsulted && !$hrRetryCalled
+//@   requires !$hrConsulted && !$hrRetryCalled && !$ciConsulted
 //@   after frame.RawCodec.ConvertFromRawFrame#1 set $hrErr = (result1 != nil); $hrMsg = result0.Body.Message
 //@   after proxy.RetryPolicy.OnReadTimeout#1 set $hrConsulted = true; $hrDecision = result
 //@   after proxy.RetryPolicy.OnWriteTimeout#1 set $hrConsulted = true; $hrDecision = result
@@ -489,7 +507,7 @@ func verifSpecCL(lowered string) primitive.ConsistencyLevel {
 //@   ensures (r.done ==> r.$replies == 1) && (!r.done ==> r.$replies == 0) && r.retryCount >= 0
 //@   ensures not-retried: !retried ==> !r.done && r.$replies == 0 && $sends == old($sends) && r.retryCount == old(r.retryCount)
 //@   ensures retried-outcome: retried ==> r.retryCount == old(r.retryCount) + 1 && ((r.done && $sends == old($sends)) || (!r.done && $sends == old($sends) + 1))
-//@   modifies r.state, r.done, r.host, r.retryCount, r.$replies, $sends, r.qp.$remaining, $hrErr, $hrMsg, $hrConsulted, $hrDecision, $hrRetryCalled, $hrNext
+//@   modifies r.state, r.done, r.host, r.retryCount, r.$replies, $sends, r.qp.$remaining, $hrErr, $hrMsg, $hrConsulted, $hrDecision, $hrRetryCalled, $hrNext, $ciConsulted, $ciResult
 
 // OnResult: a backend answered. The first non-error result, or the first error the policy does not
 // retry, is forwarded - exactly once - on the client's stream; a retried error is not forwarded.
@@ -498,7 +516,7 @@ func verifSpecCL(lowered string) primitive.ConsistencyLevel {
 //@ ghostvar $orDone bool
 //@ ghostvar $orRetried bool
 //@ func proxy.request.OnResult [C01, C02, C04, C05]
-//@   requires !$hrConsulted && !$hrRetryCalled && !$orRetried
+//@   requires !$hrConsulted && !$hrRetryCalled && !$orRetried && !$ciConsulted
 //@   after sync.Mutex.Lock#1 set $orDone = r.done
 //@   after proxy.request.handleErrorResult#1 set $orRetried = result
 //@   ensures late-answer-dropped: $orDone ==> $sends == old($sends) && r.$replies == 1 && r.done
@@ -509,7 +527,7 @@ func verifSpecCL(lowered string) primitive.ConsistencyLevel {
 //@   requires r != nil && raw != nil && raw.Header != nil && r.client != nil && r.client.conn != nil && r.client.proxy != nil && r.client.codec != nil && r.session != nil && r.qp != nil && r.qp.$remaining >= 0 && r.client.proxy.config.RetryPolicy != nil
 //@   ensures at-most-one-send: $sends <= old($sends) + 1
 //@   ensures forwarded-on-own-stream: r.$replies == old(r.$replies) + 1 && old(raw.Header.OpCode) != primitive.OpCodeError ==> raw.Header.StreamId == r.stream
-//@   modifies r.state, r.done, r.host, r.retryCount, r.$replies, $sends, r.qp.$remaining, raw.Header.StreamId, $hrErr, $hrMsg, $hrConsulted, $hrDecision, $hrRetryCalled, $hrNext, $orDone, $orRetried
+//@   modifies r.state, r.done, r.host, r.retryCount, r.$replies, $sends, r.qp.$remaining, raw.Header.StreamId, $hrErr, $hrMsg, $hrConsulted, $hrDecision, $hrRetryCalled, $hrNext, $orDone, $orRetried, $ciConsulted, $ciResult
 
 // The retry policy is consulted, never mutated, by the request path.
 //@ iface proxy.RetryPolicy.OnReadTimeout
